@@ -403,9 +403,11 @@ class GridSearchOutput(AbstractSearchOutput):
     @property
     def id(self) -> str:
         """
-        Use the unique tag of the grid search as an identifier.
+        The identifier of the grid search, which is the name of its output folder
+        (the identifier its children store as their parent identifier and that a
+        grid search written through a database session is given).
         """
-        return self.unique_tag
+        return self.directory.name
 
 
 class GridSearch:
